@@ -147,6 +147,12 @@ int main(void) {
                 bool r = qhasharr_put_by_obj(t, kk, keylen[k], vv, nv);
                 guard_free(gk); guard_free(gv);
                 printf("%s", r ? "true" : "false");
+            } else if (!strcmp(op, "putf")) {
+                /* putf <k> <text>: the formatted-string interface on a C-string key; stores the text with its terminator */
+                int k = atoi(a1); size_t nv = unhex(a2, vbuf); vbuf[nv] = 0;
+                char *kk = malloc(keylen[k] + 1); memcpy(kk, keys[k], keylen[k]); kk[keylen[k]] = 0;
+                bool r = qhasharr_putstrf(t, kk, "%s", (char *)vbuf); free(kk);
+                printf("%s", r ? "true" : "false");
             } else if (!strcmp(op, "get")) {
                 /* the key is presented from buffers of varying alignment (put: malloc'd copy; get/del: offset 0..3 in turn):
                    the table is a function of the key bytes, not of where the caller keeps them */
